@@ -16,9 +16,14 @@ func init() {
 		Assumptions: []string{"the reference encoder (ref.EncTop) is written from README/wire.go doc comments/golden files and must reproduce all 19 golden files before any verdict",
 			"key-before-value inside a map entry is kept as plenc writes it (README: proto-encoded maps are not readable)"},
 		Pre:  func(string) error { return ref.CheckGolden(mc.RepoDir) },
-		Work: func(c *mc.Ctx) { enumItems(c, withRecursive(ref.Universe(c.Tier)), c02Case) },
+		Work: func(c *mc.Ctx) {
+			enumItems(c, withRecursive(ref.Universe(c.Tier)), c02Case)
+			// the encoding must not depend on which types the instance built before
+			unit := 1 << 20
+			buildOrder(c, &unit, "C02", bytesProbe)
+		},
 		Post: func(a *mc.Agg) []string {
-			return needDims(a, "pos:top", "pos:field", "pos:elem", "pos:mapval", "pos:mapkey", "decode-variants")
+			return needDims(a, "pos:top", "pos:field", "pos:elem", "pos:mapval", "pos:mapkey", "decode-variants", "build-order")
 		},
 	})
 }
